@@ -51,4 +51,31 @@ theorem UsesStar.head {reg : Registry} {a b c : Site} (hab : Uses reg a b) (hbc 
 theorem KeysIdentify.step {reg : Registry} {a b : Site} (h : KeysIdentify reg a) (hab : Uses reg a b) : KeysIdentify reg b :=
   fun x y hx hxy hk => h x y (UsesStar.head hab hx) hxy hk
 
+theorem UsesStar.trans {reg : Registry} {a b c : Site} (hab : UsesStar reg a b) (hbc : UsesStar reg b c) : UsesStar reg a c := by
+  induction hbc with
+  | refl => exact hab
+  | tail _ hcd ih => exact UsesStar.tail ih hcd
+
+/-- The prefixes of the import statements of every loaded (sub)module are pairwise different
+(RFC 7950 section 7.1.5). -/
+def ImportsDistinct (reg : Registry) : Prop :=
+  ∀ root ∈ reg.mods, ∀ i ∈ root.imports, ∀ i' ∈ root.imports, ∀ p,
+    i.argOf? "prefix" = some p → i'.argOf? "prefix" = some p → i = i'
+
+/-- The name written at the site `s` denotes at most one typedef. -/
+def UnambiguousAt (reg : Registry) (s : Site) : Prop :=
+  ∀ m td sc m' td' sc', Binds reg s.1 s.2.1 s.2.2.arg m td sc → Binds reg s.1 s.2.1 s.2.2.arg m' td' sc' →
+    m = m' ∧ td = td' ∧ sc = sc'
+
+/-- No name met while resolving the type statement at `s0` denotes two typedefs: every site
+reachable from `s0` through `Uses` steps is unambiguous.  (`Spec.Types.Unambiguous` asks this of
+every conceivable site, made-up scopes included, and holds of no registry.) -/
+def UnambiguousBelow (reg : Registry) (s0 : Site) : Prop := ∀ a, UsesStar reg s0 a → UnambiguousAt reg a
+
+theorem UnambiguousBelow.step {reg : Registry} {a b : Site} (h : UnambiguousBelow reg a) (hab : UsesStar reg a b) :
+    UnambiguousBelow reg b := fun x hx => h x (UsesStar.trans hab hx)
+
+theorem KeysIdentify.below {reg : Registry} {a b : Site} (h : KeysIdentify reg a) (hab : UsesStar reg a b) : KeysIdentify reg b :=
+  fun x y hx hxy hk => h x y (UsesStar.trans hab hx) hxy hk
+
 end Goyang.Lemmas.TypesDefs
